@@ -82,8 +82,20 @@ def explore(h, variant, tier, max_paths):
             # an exception raised INSIDE the model of numpy (innermost frame in pvc code, or a TypeError about a pvc class's
             # signature / operands) is a gap of the model, not behaviour of the real code: undecided, never a violation
             last = traceback.extract_tb(e.__traceback__)[-1]
-            model_gap = (os.sep + 'pvc' + os.sep in last.filename and isinstance(e, (TypeError, AttributeError, NotImplementedError))) or \
-                bool(isinstance(e, TypeError) and re.search(r"(SArr|Sigma|SInt|SReal|SBool|SList|Cx)\W.*(unexpected keyword|positional argument|unsupported operand|not supported)", str(e)))
+            symcls = r"\b(SArr|Sigma|SInt|SReal|SBool|SList|Cx|SpecFn|AscendingInts)\b"
+            in_model = (os.sep + 'pvc' + os.sep) in last.filename or (os.sep + 'z3' + os.sep) in last.filename
+            model_gap = (in_model and (isinstance(e, (TypeError, AttributeError, NotImplementedError, RecursionError)) or type(e).__name__ in ('ArgumentError', 'Z3Exception'))) or \
+                bool(isinstance(e, TypeError) and re.search(symcls, str(e)) and re.search(r"unexpected keyword|positional argument|unsupported operand|not supported|object is not|cannot be interpreted|must be", str(e))) or \
+                bool(isinstance(e, KeyError) and (re.search(symcls, str(e)) or any(type(a_).__module__.startswith('pvc') for a_ in e.args)))
+            # (a KeyError whose key IS a symbolic value: a dict / cache lookup keyed by an input, which the model cannot hash to a concrete entry)
+            if not model_gap and isinstance(e, TypeError):
+                # a call-signature error (raised at the call site, i.e. in a repository frame) against a function of the numpy MODEL:
+                # the real numpy accepts the call (e.g. np.clip(..., out=...)), the model does not know the argument
+                msig = re.match(r"(?:\w+\.)*(\w+)\(\) (got an unexpected keyword argument|got multiple values|missing \d+ required|takes (?:from )?\d+)", str(e))
+                if msig:
+                    from pvc import symnp as _symnp, symarr as _symarr
+                    nm = msig.group(1)
+                    model_gap = hasattr(_symnp, nm) or hasattr(_symarr.SArr, nm) or hasattr(getattr(_symnp, 'fft', None), nm) or hasattr(getattr(_symnp, 'linalg', None), nm)
             if not model_gap and isinstance(e, (KeyError, AttributeError)) and (os.sep + 'contracts' + os.sep) in last.filename:
                 model_gap = True       # the harness could not reach what it wanted to look at (private cache / attribute): a limit of the harness
             if model_gap:
